@@ -16,7 +16,10 @@ EXPLANATION = (
     "reaches the IrrDay column is >= 0 on every path. C04.c: every writer of the micro-advection-adjusted canopy cover "
     "(the factor (1 - CC*) of potential soil evaporation) leaves it <= 1 on every exit path (abstract interpretation "
     "with order facts). C04.d: the submergence factor 1 - day_submerged/LagAer that scales surface transpiration is computed "
-    "only where the order facts give day_submerged <= LagAer (strict guard before the integer increment), so it is >= 0. NOT decided: Es <= EsPot, Tr <= TrPot, non-negativity of DeepPerc / CR / GwIn / Runoff / Es "
+    "only where the order facts give day_submerged <= LagAer (strict guard before the integer increment), so it is >= 0. C04.e: the net-irrigation refill raises (or lowers) each compartment towards the threshold of its own layer - "
+    "the per-layer threshold is recomputed from the compartment's own wilting point / field capacity at every layer change and the "
+    "root-zone-average threshold computed before the loop cannot reach the refill (reaching definitions + the layer-change idiom) - "
+    "the structural half of the non-negativity of the net requirement. NOT decided: Es <= EsPot, Tr <= TrPot, non-negativity of DeepPerc / CR / GwIn / Runoff / Es "
     "(numeric, depend on run-time water contents).")
 
 
@@ -122,6 +125,12 @@ def run(chk, prog, tier):
                               f"is not bounded by 1 on every path: {'; '.join(sorted(set(detail)))}",
                               loc=fi.loc())
     rule_d(chk, prog)
+    # ---------------------------------------------------------------- C04.e
+    # the net-irrigation requirement sum_j RootFact[j]*(thCrit_j - th[j])*1000*dz[j] is >= 0 (up to the root-zone rounding) because the
+    # refill is triggered by the root-zone averages of the very same per-layer thresholds: every compartment must be refilled towards
+    # its own layer's threshold, never towards the root-zone average or another layer's
+    from .c03 import rule_d as own_thresholds
+    own_thresholds(chk, prog, rule="C04.e", only={"transpiration"}, floor=1)
     chk.assume("A-1")
     chk.exhaustive = True
 
